@@ -627,6 +627,9 @@ func trRun(repo string) (map[string]string, []string) {
 			b.WriteString("import Knut.GoSem.Fmt\n") // io.Writer, fmt's padding, strings.Join, Time.Format (trans_units_jprinter.go)
 		}
 		b.WriteString(trPerfImports(body.String() + strings.Join(t.decls[u], "\n")))
+		for _, imp := range trMappingImports(body.String() + strings.Join(t.decls[u], "\n")) {
+			b.WriteString(imp + "\n") // Regexp.Ptr (trans_units_mapping.go)
+		}
 		for _, imp := range trBeanImports(body.String()) {
 			b.WriteString(imp + "\n") // Regexp, Strings.HasPrefix, sortSlice (trans_units_beancount.go)
 		}
